@@ -26,7 +26,7 @@ LEVEL_TEXT = ("Real end-to-end runs on random coastlines (islands, one-cell chan
 LEVEL_NOTE = "The valid region and sea cells are computed independently from the grid file (mask_rho, subgrid limits). Trusts the spied velocities as the scheme's output (their correctness is C01/C02)."
 RULE = ("case = world (mask, flow, subgrid) x run (scheme, diffusion, release, IBM schedule, layout). Non-trivial: at least one move cancelled by land or one particle killed at the "
         "open boundary or one inactive particle held; distinct by case parameters.")
-MANDATORY = ["moved", "cancelled_by_land", "killed_at_boundary", "inactive_held", "diffusion_on", "scheme_EF", "scheme_RK2", "scheme_RK4",
+MANDATORY = ["record_after_everybody_died", "records_checked_against_deaths", "moved", "cancelled_by_land", "killed_at_boundary", "inactive_held", "diffusion_on", "scheme_EF", "scheme_RK2", "scheme_RK4",
              "tracker_updates", "records_checked", "release_near_rim", "subgrid", "dense", "one_cell_channel", "release_event_adding_nobody", "reversed_time"]
 ASSUMPTIONS = ["release positions in sea cells of the valid region (as the property quantifies)"]
 TIMEOUT = {"quick": 900, "thorough": 3400}
@@ -62,7 +62,8 @@ def gen_case(seed: int, idx: int) -> dict[str, Any]:
     return dict(idx=idx, imax=imax, jmax=jmax, subgrid=sub, land=land, mask_kind=mk, flow=flow, dt=dt, dx=dx,
                 scheme=["EF", "RK2", "RK4"][idx % 3], diffusion=float(rng.choice([0.0, 0.0, 20.0, 150.0])),
                 nsteps=int(rng.integers(12, 31)), nrel=int(rng.integers(12, 40)), layout="dense" if idx % 5 == 4 else "sparse",
-                deact_frac=float(rng.choice([0.0, 0.2])), kill_frac=float(rng.choice([0.0, 0.1])), cont=bool(rng.random() < 0.5), reversed=bool(idx % 4 == 3))
+                deact_frac=float(rng.choice([0.0, 0.2])), kill_frac=float(rng.choice([0.0, 0.1])), cont=bool(rng.random() < 0.5), reversed=bool(idx % 4 == 3),
+                all_die=bool(idx % 8 == 5))
 
 
 def gen_cases(tier: str, seed: int) -> list[dict[str, Any]]:
@@ -108,6 +109,17 @@ def build(case: dict[str, Any]):
             near_rim += 1
         step = 0 if (not case["cont"] or len(rows) < case["nrel"] // 2) else int(rng.integers(0, max(1, nsteps - 2)))
         rows.append([step, x, y, float(rng.uniform(0, 50))])
+    if case.get("all_die"):
+        # a small cohort that leaves through the open boundary (or is killed by the IBM) in one and the same step, nobody left for several
+        # records, then a late release: the dead must be gone from every record in between
+        ux, vy = case["flow"]["u"], case["flow"]["v"]
+        if abs(ux) >= abs(vy):
+            cand = [[0, (xhi - 0.2) if ux > 0 else (xlo + 0.2), float(y_), 5.0] for y_ in np.linspace(ylo + 1, yhi - 1, 6)]
+        else:
+            cand = [[0, float(x_), (yhi - 0.2) if vy > 0 else (ylo + 0.2), 5.0] for x_ in np.linspace(xlo + 1, xhi - 1, 6)]
+        rows = [r for r in cand if M[int(round(r[2])), int(round(r[1]))] > 0][:3] or rows[:1]
+        late_ = [r for r in cand if M[int(round(r[2])), int(round(r[1]))] > 0][:1]
+        rows += [[min(nsteps - 2, 9), r[1], r[2], r[3]] for r in late_]
     rows.sort(key=lambda r: r[0])
     relrows = [[str(tadd(start, sg * r[0] * dt)), 1, r[1], r[2], r[3]] for r in rows]
     # release times at which every row has mult = 0 (a release event that adds nobody), spread over the run
@@ -122,7 +134,10 @@ def build(case: dict[str, Any]):
     if nd:
         deact[str(int(rng.integers(0, 4)))] = [int(p) for p in rng.choice(npart, size=nd, replace=False)]
     nk = int(case["kill_frac"] * npart)
-    if nk:
+    if case.get("all_die"):
+        deact = {}
+        kill = {"2": [p for p in range(npart) if rows[p][0] == 0]}  # whoever has not left by then is killed: everybody present dies in that step at the latest
+    elif nk:
         kill[str(int(rng.integers(1, 6)))] = [int(p) for p in rng.choice(npart, size=nk, replace=False)]
     run = dict(start=start, stop=str(tadd(start, sg * nsteps * dt)), dt=dt, reversed=rev, advection=case["scheme"], diffusion=case["diffusion"], subgrid=case["subgrid"],
                release=dict(columns=["release_time", "mult", "X", "Y", "Z"], rows=relrows, header=True),
@@ -148,6 +163,8 @@ def install_tracker_monitor(hk: Hooks, M, box, dt: float, dx: float, dy: float, 
         spy["diff"] = (np.array(res[0], float).copy(), np.array(res[1], float).copy())
 
     dead_pids: set[int] = set()
+    dead_at: dict[int, int] = {}  # pid -> model step during which it was first seen dead
+    hk.dead_at = dead_at
 
     def before_upd(self):
         st = self.modules["state"]
@@ -248,6 +265,9 @@ def install_tracker_monitor(hk: Hooks, M, box, dt: float, dx: float, dy: float, 
             return
         cnt["particle_steps_classified"] = cnt.get("particle_steps_classified", 0) + n
         dead_pids.update(int(p) for p, a_ in zip(tok["pid"], alive_n) if not a_)
+        for p, a_ in zip(tok["pid"], alive_n):
+            if not a_:
+                dead_at.setdefault(int(p), tok["step"])
         if extra_after is not None:
             extra_after(tok, self)
 
@@ -261,6 +281,9 @@ def install_tracker_monitor(hk: Hooks, M, box, dt: float, dx: float, dy: float, 
     def after_model_update(tok, res, self):
         st = self.state
         dead_pids.update(int(p) for p, a_ in zip(st.pid, st.alive) if not a_)
+        for p, a_ in zip(st.pid, st.alive):
+            if not a_:
+                dead_at.setdefault(int(p), int(self.timer.step))
 
     hk.wrap(Model, "update", None, after_model_update)
     return dead_pids
@@ -297,6 +320,7 @@ def run_case(case: dict[str, Any], wd: Path) -> dict[str, Any]:
         install_tracker_monitor(hk, M, box, float(case["dt"]), case["dx"], case["dx"], V, sit, cnt, desc)
         res, conf, world = run_scenario(scn, wd)
         cnt["Tracker.update calls"] = hk.counts["Tracker.update"]
+        dead_at = dict(hk.dead_at)
     sit[f"scheme_{case['scheme']}"] = 1
     sit["diffusion_on"] = int(case["diffusion"] > 0)
     sit["release_near_rim"] = near_rim
@@ -310,6 +334,17 @@ def run_case(case: dict[str, Any], wd: Path) -> dict[str, Any]:
     else:
         recs = all_records(read_outputs(res.outputs))
         check_pid_sets(recs, V, sit, desc)
+        # a particle seen dead (state hook) during model step s is in no record of a later step
+        t0 = np.datetime64(scn["run"]["start"], "s")
+        for r in recs:
+            k = abs(int((r.time - t0) / np.timedelta64(1, "s"))) // int(case["dt"])
+            late = sorted(int(p) for p in r.pid if dead_at.get(int(p), 10**9) < k)
+            if late:
+                V.append(C.viol(f"record of step {k} ({r.time}) holds pids {late[:8]} that were dead in the state since step {dead_at[late[0]]}", **desc))
+                break
+            sit["records_checked_against_deaths"] = sit.get("records_checked_against_deaths", 0) + int(any(v < k for v in dead_at.values()))
+            if len(r.pid) == 0 and any(v < k for v in dead_at.values()):
+                sit["record_after_everybody_died"] = sit.get("record_after_everybody_died", 0) + 1
         xlo, xhi, ylo, yhi = box
         for r in recs:
             X, Y = np.asarray(r.vars["X"]), np.asarray(r.vars["Y"])
